@@ -148,6 +148,7 @@ Proof.
   destruct (write_parts false s parts) as [s1 ok] eqn:Ew. cbn [fst] in He.
   destruct ok; [|exact He].
   unfold finish_parts. destruct parts as [|p1 [|p2 r]]; try exact He.
+  destruct (path_eqb p1 head) eqn:Eph; [exact He|].
   cbn [negb andb]. destruct (lexists s1 head) eqn:El; [exact He|].
   (* one part, archive path free: the part written by this run is renamed *)
   cbn [write_parts create_part] in Ew.
@@ -273,7 +274,11 @@ Lemma run_parts_head_conflict s head p1 : node s head <> None ->
 Proof.
   intro Hh. unfold run_parts. cbn [write_parts create_part].
   destruct (create_new s p1) as [s1|] eqn:E; [|apply one_neq_zero].
-  unfold finish_parts. cbn [negb andb].
+  unfold finish_parts.
+  destruct (path_eqb p1 head) eqn:Eph.
+  { (* the part IS the archive path: create_new has refused it *)
+    apply path_eqb_eq in Eph. subst p1. apply create_new_some in E. destruct E as [Hn _]. contradiction. }
+  cbn [negb andb].
   pose proof (ext_some _ _ _ (create_new_ext _ _ _ E) Hh) as H1.
   unfold lexists. destruct (node s1 head); [apply one_neq_zero | contradiction].
 Qed.
@@ -472,6 +477,7 @@ Proof.
   intros Hh Hi. unfold run_parts. pose proof (write_parts_new os parts s Hi) as Hn.
   destruct (write_parts false s parts) as [s1 ok]. cbn [fst] in Hn. destruct ok; [|exact Hn].
   unfold finish_parts. destruct parts as [|p1 [|p2 r]]; try exact Hn.
+  destruct (path_eqb p1 head); [exact Hn|].
   cbn [negb andb]. destruct (lexists s1 head); [exact Hn|].
   destruct (rename s1 p1 head) as [s2|] eqn:Er; cbn [fst]; [|exact Hn].
   eapply new_ok_trans; [exact Hn|].
@@ -548,4 +554,72 @@ Proof.
     destruct (extract_all false fs0 os false) as [s1 e]. exact H1.
   - unfold run_extract. pose proof (extract_all_new (map snd os) os fs0 false (incl_refl _)) as H1.
     destruct (extract_all false fs0 os false) as [s1 e]. exact H1.
+Qed.
+
+(* ---- `pna split x.part1.pna --out-dir o` whose whole output is ONE part (fix 067bc08d) -------------------------------
+   the part is o/x.part1.pna, the very name the finished archive gets: head = first part.  finish_parts then has nothing
+   to do; between 36c3adfe and 067bc08d its existence test saw the part this run had just written and refused the run
+   after the output was complete, in a clean directory *)
+Lemma mkdirs_from_dir rest : forall s pre s', mkdirs_from s pre rest = Some s' -> node s pre = Some Dir ->
+  node s' (pre ++ rest) = Some Dir.
+Proof.
+  induction rest as [|c r IH]; intros s pre s' H Hd; cbn [mkdirs_from] in H.
+  - injection H as <-. rewrite app_nil_r. exact Hd.
+  - replace (pre ++ c :: r) with ((pre ++ [c]) ++ r) by (rewrite <- app_assoc; reflexivity).
+    assert (Hq : pre ++ [c] <> []) by (destruct pre; discriminate).
+    destruct (lookup s (pre ++ [c])) as [[x| |t]|] eqn:L; try discriminate.
+    + apply (IH _ _ _ H). destruct (pre ++ [c]) eqn:E; [contradiction|]. cbn [node]. exact L.
+    + apply (IH _ _ _ H). apply node_put_same. exact Hq.
+Qed.
+Lemma path_eqb_length a : forall b, path_eqb a b = true -> length a = length b.
+Proof. intros b H. apply path_eqb_eq in H. subst. reflexivity. Qed.
+Lemma mkdirs_from_longer rest : forall s pre s' q, mkdirs_from s pre rest = Some s' ->
+  (length pre + length rest < length q)%nat -> node s' q = node s q.
+Proof.
+  induction rest as [|c r IH]; intros s pre s' q H Hl; cbn [mkdirs_from] in H.
+  - injection H as <-. reflexivity.
+  - assert (Hl' : (length (pre ++ [c]) + length r < length q)%nat) by (rewrite app_length; cbn [length] in *; lia).
+    destruct (lookup s (pre ++ [c])) as [[x| |t]|] eqn:L; try discriminate.
+    + exact (IH _ _ _ _ H Hl').
+    + rewrite (IH _ _ _ _ H Hl'). apply node_put_other. intros E. rewrite E in Hl'. lia.
+Qed.
+Lemma length_parent p : p <> [] -> (length (parent p) < length p)%nat.
+Proof.
+  intros H. unfold parent. destruct (@exists_last _ p H) as (l & x & ->). rewrite removelast_last, app_length. cbn. lia.
+Qed.
+
+(* a run into a clean place succeeds: nothing at the output path, the output directory can be made => exit 0 and the
+   part is there, under the archive's name *)
+Theorem split_selfnamed_clean head fs0 : head <> [] -> ~ existed fs0 head ->
+  (exists s1, mkdirs fs0 (parent head) = Some s1) ->
+  let c := {| kind := Split; overwrite := false; outs := [(OFile, head); (OFile, head)] |} in
+  snd (run c fs0) = 0 /\ node (fst (run c fs0)) head = Some (File new_content) /\
+  (forall p, existed fs0 p -> node (fst (run c fs0)) p = node fs0 p).
+Proof.
+  intros NE Hn (s1 & Em) c.
+  assert (N0 : node fs0 head = None) by (unfold existed in Hn; destruct (node fs0 head); [exfalso; apply Hn; discriminate|reflexivity]).
+  assert (N1 : node s1 head = None).
+  { rewrite <- N0. unfold mkdirs in Em. apply (mkdirs_from_longer _ _ _ _ _ Em). cbn [length]. apply length_parent. exact NE. }
+  assert (D1 : is_dir s1 (parent head) = true).
+  { unfold is_dir. unfold mkdirs in Em. pose proof (mkdirs_from_dir _ _ _ _ Em eq_refl) as Hd. cbn [app] in Hd.
+    rewrite Hd. reflexivity. }
+  assert (R : run c fs0 = (put s1 head (File new_content), 0)).
+  { unfold run, c. cbn [kind overwrite outs map snd]. unfold run_split. rewrite Em. cbn [negb andb].
+    unfold exists_follow. rewrite N1. unfold run_parts. cbn [write_parts create_part]. unfold create_new. rewrite D1, N1.
+    unfold finish_parts. rewrite path_eqb_refl. reflexivity. }
+  split; [rewrite R; reflexivity|]. split; [rewrite R; cbn [fst]; apply node_put_same; exact NE|].
+  intros p Hp. apply no_clobber; [reflexivity|exact Hp].
+Qed.
+
+(* the same run on the code between 36c3adfe and 067bc08d: no object at any output path, and exit 1 *)
+Definition sn_head : path := [lit "o"; lit "x.part1.pna"].
+Lemma split_selfnamed_unrepaired :
+  sn_head <> [] /\ ~ existed [] sn_head /\ (exists s1, mkdirs [] (parent sn_head) = Some s1) /\
+  (forall p, In p (outputs {| kind := Split; overwrite := false; outs := [(OFile, sn_head); (OFile, sn_head)] |}) -> ~ existed [] p) /\
+  snd (run_split_orig false sn_head [sn_head] []) = 1 /\
+  snd (run_split false sn_head [sn_head] []) = 0.
+Proof.
+  split; [discriminate|]. split; [intro H; apply H; reflexivity|]. split; [eexists; vm_compute; reflexivity|].
+  split; [|split; vm_compute; reflexivity].
+  intros p Hp H. cbn in Hp. destruct Hp as [<-|[<-|[]]]; apply H; reflexivity.
 Qed.
